@@ -56,6 +56,14 @@ var zzTemplates = []zzTmpl{
 	{name: "stringslice", src: "s := \"hello\"\nt := s[a:b]\nu := s[b]\n", assume: "small"},
 	{name: "nestedindexset", src: "x := [[1 2] [3 4]]\nx[0][0] = x[0][1] + a\ny := x[1][b]\n", assume: "small"},
 	{name: "equalcomposite", src: "p := [a b] == [a b]\nq := {k:a} == {k:b}\nr := [a] != [b]\n"},
+	// locals declared after a nested block has closed, used as non-first operands
+	{name: "latelocals", src: "t := 0\nif a < b or a >= b\n    p := a\n    if true\n        q := b\n        t = t + q\n    end\n    r := a * 2\n    s := b * 3\n    t = t + p + (r + s) * (p + r) - s\nend\n"},
+	{name: "latelocalswhile", src: "t := 0\ni := 0\nwhile i < 2\n    i = i + 1\n    if i == 1\n        u := a\n        t = t + u\n    end\n    v := b + i\n    w := \"x\" + \"a\"\n    t = t + 1 + (v * 2 + 1) * (v + 3)\n    w = w + w\nend\n"},
+	// arrays derived from a common base by concatenation are independent
+	{name: "concatfork", src: "base := [1 2 3] + [a]\nleft := base + [5]\nright := base + [b]\nsame := left == right\nl2 := left + [7]\nr2 := left + [8]\n"},
+	{name: "concatloop", src: "acc := [0]\nfor i := range 4\n    acc = acc + [i+a]\nend\np1 := acc + [b]\np2 := acc + [9]\neq := p1 == p2\n"},
+	{name: "slicefork", src: "base := [1 2 3 4]\ns1 := base[1:3]\ns2 := s1 + [a]\ns3 := s1 + [b]\nbase[1] = 9\n"},
+	{name: "repeatfork", src: "base := [a] * 3\nc1 := base + [1]\nc2 := base + [b]\n"},
 	// constructs without a translation: Compile must fail, never drop them silently
 	{name: "typeddecl", src: "x:num\nx = a + b\n", unsupported: true},
 	{name: "funcdef", src: "func f:num n:num\n    return n * 2\nend\nx := f a\ny := b\n", unsupported: true},
